@@ -58,8 +58,8 @@ pub fn main_campaign() -> SimCampaign {
             avoid: avoid_all(),
             ..Flags::default()
         },
-        quick: 6000,
-        thorough: 150_000,
+        quick: 15000,
+        thorough: 300000,
         nontrivial,
         probes: vec![],
         shape: Some(|mut h: Hist| {
